@@ -156,6 +156,10 @@ func (f *Query) UnmarshalXML(d *xml.Decoder, start xml.StartElement) error {
 		return err
 	}
 
+	if s.Form == nil {
+		// The filter is optional, an empty form has no fields set.
+		s.Form = form.New()
+	}
 	f.ID = s.ID
 	f.With, _ = s.Form.GetJID(fieldWith)
 	startTime, ok := s.Form.GetString(fieldStart)
